@@ -149,6 +149,24 @@ struct TestActor {
     extra: Option<Arc<ConcShared>>,
     /// parks `pre_start` (name reserved, not yet activated) until released
     gate: Option<StartGate>,
+    /// makes dropping the actor value slow: `Drop` reports that it began and blocks until released
+    drop_gate: Option<DropGate>,
+}
+
+struct DropGate {
+    entered: mpsc::Sender<()>,
+    release: Mutex<mpsc::Receiver<()>>,
+}
+
+impl Drop for TestActor {
+    fn drop(&mut self) {
+        if let Some(g) = &self.drop_gate {
+            g.entered.send(()).ok();
+            if let Ok(rx) = g.release.lock() {
+                rx.recv_timeout(LONG).ok();
+            }
+        }
+    }
 }
 
 struct StartGate {
@@ -524,7 +542,7 @@ impl Det {
                 format!("spawn of actor {a} under name {n} accepted while actor {h} holds that name (reserved or alive)"),
             )),
             (None, "nametaken") => self.mon.push((
-                "C19:name-taken-but-free".into(),
+                "C19:name-not-released".into(),
                 format!("spawn of actor {a} under name {n} refused although no actor holds that name"),
             )),
             _ => {}
@@ -556,7 +574,7 @@ impl Det {
                 let log = self.log.clone();
                 let cluster = self.cluster.as_ref().unwrap();
                 let mut sp = cluster
-                    .spawn(move || TestActor { id: a, hooks, log, extra: None, gate: None }, ())
+                    .spawn(move || TestActor { id: a, hooks, log, extra: None, gate: None, drop_gate: None }, ())
                     .with_capacity(cap);
                 let name = if *name == "-" { None } else { Some(name.to_string()) };
                 if let Some(n) = &name {
@@ -1216,7 +1234,7 @@ fn finish_det(d: &mut Det, ex: &mut Exec) {
                 .cluster
                 .as_ref()
                 .unwrap()
-                .spawn(move || TestActor { id: 999_999, hooks: [true; 4], log, extra: None, gate: None }, ())
+                .spawn(move || TestActor { id: 999_999, hooks: [true; 4], log, extra: None, gate: None, drop_gate: None }, ())
                 .with_name(n.clone())
                 .into_future();
             if let Poll::Ready(Err(SpawnError::NameTaken(_))) = poll_once(Pin::new(&mut probe)) {
@@ -1393,7 +1411,7 @@ fn run_conc(spec: &ConcSpec) -> Vec<String> {
         let supervised = sup.is_some() && rng.chance(1, 2) && used_keys.insert((name.clone(), cap));
         let (l, x) = (log.clone(), shared.clone());
         let mut sp = cluster
-            .spawn(move || TestActor { id, hooks, log: l, extra: Some(x), gate: None }, ())
+            .spawn(move || TestActor { id, hooks, log: l, extra: Some(x), gate: None, drop_gate: None }, ())
             .with_capacity(NonZeroUsize::new(cap).unwrap());
         if let Some(n) = &name {
             sp = sp.with_name(n.clone());
@@ -1520,7 +1538,7 @@ fn run_conc(spec: &ConcSpec) -> Vec<String> {
                     let id = 2000 + (k as u32) * 500 + j;
                     let l2 = l.clone();
                     let r = block_on_timeout(
-                        cl.spawn(move || TestActor { id, hooks: [true; 4], log: l2, extra: None, gate: None }, ())
+                        cl.spawn(move || TestActor { id, hooks: [true; 4], log: l2, extra: None, gate: None, drop_gate: None }, ())
                             .with_name(*n)
                             .into_future(),
                         LONG,
@@ -1554,7 +1572,7 @@ fn run_conc(spec: &ConcSpec) -> Vec<String> {
         let l = log.clone();
         let gate = StartGate { entered: etx, release: Mutex::new(Some(rrx)) };
         let mut fut1 = cluster
-            .spawn(move || TestActor { id: 3001, hooks: [true; 4], log: l, extra: None, gate: Some(gate) }, ())
+            .spawn(move || TestActor { id: 3001, hooks: [true; 4], log: l, extra: None, gate: Some(gate), drop_gate: None }, ())
             .with_name("z")
             .with_capacity(NonZeroUsize::new(7).unwrap())
             .into_future();
@@ -1564,7 +1582,7 @@ fn run_conc(spec: &ConcSpec) -> Vec<String> {
         let l = log.clone();
         let r2 = block_on_timeout(
             cluster
-                .spawn(move || TestActor { id: 3002, hooks: [true; 4], log: l, extra: None, gate: None }, ())
+                .spawn(move || TestActor { id: 3002, hooks: [true; 4], log: l, extra: None, gate: None, drop_gate: None }, ())
                 .with_name("z")
                 .with_capacity(NonZeroUsize::new(9).unwrap())
                 .into_future(),
@@ -1598,7 +1616,7 @@ fn run_conc(spec: &ConcSpec) -> Vec<String> {
         let l = log.clone();
         match block_on_timeout(
             cluster
-                .spawn(move || TestActor { id: 3003, hooks: [true; 4], log: l, extra: None, gate: None }, ())
+                .spawn(move || TestActor { id: 3003, hooks: [true; 4], log: l, extra: None, gate: None, drop_gate: None }, ())
                 .with_name("z")
                 .into_future(),
             LONG,
@@ -1614,6 +1632,47 @@ fn run_conc(spec: &ConcSpec) -> Vec<String> {
             "hist overlap {} {} {} {} {}",
             taken as u8, hidden as u8, visible as u8, first as u8, free as u8
         ));
+    }
+
+    // failed start followed at once by a respawn under the same name, while the failed actor value is still
+    // being dropped on the worker (slow `Drop`): the spawner has seen `SpawnError::Start`, so the name must be free
+    {
+        let (etx, erx) = mpsc::channel();
+        let (rtx, rrx) = mpsc::channel();
+        let l = log.clone();
+        let dg = DropGate { entered: etx, release: Mutex::new(rrx) };
+        let r1 = block_on_timeout(
+            cluster
+                .spawn(
+                    move || TestActor { id: 3101, hooks: [false, true, true, true], log: l, extra: None, gate: None, drop_gate: Some(dg) },
+                    (),
+                )
+                .with_name("w")
+                .into_future(),
+            LONG,
+        );
+        let failed = matches!(r1, Some(Err(SpawnError::Start(_))));
+        // the spawner knows of the failure; the worker may still be inside the failed task (dropping the actor)
+        let l = log.clone();
+        let mut fut2 = cluster
+            .spawn(move || TestActor { id: 3102, hooks: [true; 4], log: l, extra: None, gate: None, drop_gate: None }, ())
+            .with_name("w")
+            .into_future();
+        let first = poll_once(Pin::new(&mut fut2));
+        let refused = matches!(first, Poll::Ready(Err(SpawnError::NameTaken(_))));
+        let in_drop = erx.recv_timeout(LONG).is_ok();
+        rtx.send(()).ok();
+        let r2 = match first {
+            Poll::Ready(r) => Some(r),
+            Poll::Pending => block_on_timeout(fut2, LONG),
+        };
+        let mut respawned = false;
+        if let Some(Ok((m, h))) = r2 {
+            z_ids.push(3102);
+            m.stop();
+            respawned = block_on_timeout(h, LONG).is_some();
+        }
+        hist.push(format!("hist refail {} {} {}", (failed && in_drop) as u8, !refused as u8, respawned as u8));
     }
 
     let mut slogs: Vec<SenderLog> = threads.into_iter().map(|t| t.join().expect("sender thread")).collect();
@@ -1787,7 +1846,7 @@ fn run_conc(spec: &ConcSpec) -> Vec<String> {
         }
     }
     for i in &z_ids {
-        named.push(("z".into(), *i));
+        named.push(((if *i >= 3100 { "w" } else { "z" }).to_string(), *i));
     }
     for (n, id) in named {
         let l = log.of_seq(id);
@@ -1986,6 +2045,11 @@ fn judge(w: &[&str]) -> (String, Option<(&'static str, String)>) {
         ),
         ["hang"] => ("reject hang".into(), Some(("C19:hang", "the process running this scenario made no progress".into()))),
         ["panic", ..] => ("reject panic".into(), Some(("C19:harness-panic", w.join(" ")))),
+        ["refail", flags @ ..] if flags.len() == 3 && flags.iter().all(|f| *f == "0" || *f == "1") => {
+            // start failure observed (and the failed actor still being dropped) / respawn under the same name
+            // accepted at once / the respawned actor ran and exited
+            verdict(flags.iter().all(|f| *f == "1"), "name-not-released", "C19:name-not-released", w.join(" "))
+        }
         ["overlap", flags @ ..] if flags.len() == 5 && flags.iter().all(|f| *f == "0" || *f == "1") => {
             // second spawn refused / name hidden while starting / visible once started / resolves to the first /
             // free after both are gone
